@@ -176,7 +176,7 @@ Proof. split; [intros b e d m _ _ H; discriminate | vm_compute; repeat split; re
    (mirror image inside [beg, end), every other cell unchanged, same length), and every load and store
    was inside the array.  The precondition is exactly what the C text needs: beg and end are ints and,
    when at least one swap happens (beg + 1 < end), end <= length (0 <= beg by its type here). *)
-From NV Require Import CLite CLiteProps GenCFuncs TrUc TrRen.
+From NV Require Import CLite CLiteProps GenCFuncs CLiteTac TrRen.
 
 Theorem C18_tr_dir_reverse : forall m g ord b e d fuel,
   int_arr_at m g (map Z.of_nat ord) -> ints_ok (map Z.of_nat ord) ->
